@@ -112,7 +112,7 @@ func verifC05ErrClass(err error) string {
 }
 
 // VerifC05Parse runs parseManifest on |text|. A panic (hash.Parse on a
-// malformed root) is reported as the class "panic".
+// malformed hash) is reported as the class "panic".
 func VerifC05Parse(text []byte) (m VerifC05Manifest, class string) {
 	defer func() {
 		if r := recover(); r != nil {
@@ -207,6 +207,77 @@ func VerifC05Prune(dir string, grace time.Duration, probe, now time.Time, locker
 		res.Err = fmt.Sprintf("%s", verifC05ErrClass(err))
 	}
 	return res
+}
+
+
+// VerifC05Upstream returns the table files |store| currently relies on
+// (NomsBlockStore.upstreamReferences), as PruneUnreferencedWithGrace snapshots them.
+func VerifC05Upstream(store *NomsBlockStore) []string {
+	var out []string
+	for h := range store.upstreamReferences() {
+		out = append(out, h.String())
+	}
+	return out
+}
+
+// VerifC05Call is one manifestUpdater.Update call made by conjoinOperation.updateManifest.
+type VerifC05Call struct {
+	Last   string
+	New    VerifC05Manifest
+	Ret    VerifC05Manifest
+	Class  string
+	Called bool
+}
+
+type verifC05Recorder struct {
+	fm    *VerifC05FM // nil: pretend every update lands
+	hook  func(n int, last string, m VerifC05Manifest) func() error
+	after func(n int, c VerifC05Call)
+	calls []VerifC05Call
+}
+
+func (r *verifC05Recorder) Update(ctx context.Context, behavior dherrors.FatalBehavior, lastLock hash.Hash, newContents manifestContents, stats *Stats, writeHook func() error) (manifestContents, error) {
+	n := len(r.calls)
+	c := VerifC05Call{Last: lastLock.String(), New: verifC05From(newContents), Called: true}
+	if r.fm == nil {
+		c.Ret, c.Class = c.New, "ok"
+		r.calls = append(r.calls, c)
+		return newContents, nil
+	}
+	var hook func() error
+	if r.hook != nil {
+		hook = r.hook(n, c.Last, c.New)
+	}
+	mc, err := r.fm.fm.Update(ctx, behavior, lastLock, newContents, stats, hook)
+	c.Class = verifC05ErrClass(err)
+	if err == nil {
+		c.Ret = verifC05From(mc)
+	}
+	r.calls = append(r.calls, c)
+	if r.after != nil {
+		r.after(n, c)
+	}
+	return mc, err
+}
+
+// VerifC05Conjoin runs conjoinOperation.updateManifest for a conjoin of
+// |conjoinees| into |conjoined| against |upstream|. With fm == nil the updates
+// are only recorded (every one "lands"); otherwise they go to the real
+// fileManifest.Update, |hook| supplying the writeHook of the n-th call and
+// |after| being told its outcome.
+func VerifC05Conjoin(fm *VerifC05FM, upstream VerifC05Manifest, conjoinees []VerifC05Spec, conjoined VerifC05Spec,
+	hook func(n int, last string, m VerifC05Manifest) func() error, after func(n int, c VerifC05Call)) (ret VerifC05Manifest, calls []VerifC05Call, class string) {
+	op := &conjoinOperation{cleanup: func() {}}
+	for _, s := range conjoinees {
+		op.conjoinees = append(op.conjoinees, tableSpec{hash.Parse(s.Name), s.Count})
+	}
+	op.conjoined = tableSpec{hash.Parse(conjoined.Name), conjoined.Count}
+	rec := &verifC05Recorder{fm: fm, hook: hook, after: after}
+	mc, _, err := op.updateManifest(context.Background(), dherrors.FatalBehaviorError, verifC05To(upstream), rec, &Stats{})
+	if err != nil {
+		return VerifC05Manifest{}, rec.calls, verifC05ErrClass(err)
+	}
+	return verifC05From(mc), rec.calls, "ok"
 }
 
 // VerifC05TempManifestPrefix / VerifC05TempTablePrefix name the temp files.
